@@ -24,18 +24,18 @@ func (a fakeAddr) String() string  { return string(a) }
 // clientConn is the client side of a proxied connection as the proxy sees it:
 // a scripted byte source and a recording sink.
 type clientConn struct {
-	segs     [][]byte // bytes the client sends, one Read returns at most one segment
-	thenEOF  bool     // after the segments: client closes (EOF); otherwise it stays idle
-	out      bytes.Buffer
-	closed   int
-	closedc  chan struct{}
-	reads    int
-	writes   int
-	deadline int
-	writeErr error // if set, writes fail once failAfter bytes have been accepted
+	segs      [][]byte // bytes the client sends, one Read returns at most one segment
+	thenEOF   bool     // after the segments: client closes (EOF); otherwise it stays idle
+	out       bytes.Buffer
+	closed    int
+	closedc   chan struct{}
+	reads     int
+	writes    int
+	deadline  int
+	writeErr  error // if set, writes fail once failAfter bytes have been accepted
 	failAfter int
-	log      []string
-	tag      string
+	log       []string
+	tag       string
 }
 
 func newClientConn(tag string, thenEOF bool, segs ...[]byte) *clientConn {
@@ -176,11 +176,16 @@ type resSpec struct {
 	hval    string
 	body    []byte
 	close   bool
+	http10  bool // the origin answers with an HTTP/1.0 status line
 }
 
 func (r resSpec) wire() []byte {
 	var b bytes.Buffer
-	b.WriteString("HTTP/1.1 " + strconv.Itoa(r.status) + " " + http.StatusText(r.status) + "\r\nX-B: " + r.hval + "\r\n")
+	proto := "HTTP/1.1 "
+	if r.http10 {
+		proto = "HTTP/1.0 "
+	}
+	b.WriteString(proto + strconv.Itoa(r.status) + " " + http.StatusText(r.status) + "\r\nX-B: " + r.hval + "\r\n")
 	if r.close {
 		b.WriteString("Connection: close\r\n")
 	}
